@@ -161,6 +161,17 @@ type casePath struct {
 
 func (c *Ctx) typeCasePaths(fd *ast.FuncDecl, x *SX, par types.Object) ([]casePath, string) {
 	paths := assertByConds(x.Run(fd)) // `case Object, List: return v.(field)` hands on v
+	clean := true
+	for _, p := range paths {
+		if p.Why != "" {
+			clean = false
+		}
+	}
+	if clean {
+		// an emptiness guard inside an arm (`if len(items) == 0 { return fresh }` before the copy loop) that decides nothing
+		v := c.view(fd)
+		paths = v.guardSpecNorm(v.emptyGuardNorm(paths))
+	}
 	var out []casePath
 	for _, p := range paths {
 		if p.Why != "" {
@@ -878,7 +889,7 @@ func composedGetter(c *Ctx, gd *ast.FuncDecl, m *types.Func) string {
 				return nil, p.Why
 			}
 		}
-		return pruneDecisions(c.unboxNorm(ps)), ""
+		return pruneDecisions(c.unboxNorm(panicTailNorm(ps))), ""
 	}
 	pGet, why := run(get)
 	if why != "" {
@@ -1226,7 +1237,30 @@ func c12R6(c *Ctx) {
 					if bi, ok := x.Call.Value.(*ssa.Builtin); ok && bi.Name() == "append" && len(x.Call.Args) == 2 && isRecvSpine(x.Call.Args[0]) {
 						if mk, ok := x.Call.Args[1].(*ssa.MakeSlice); ok && a.isSpine(mk.Type()) {
 							if k, isK := mk.Len.(*ssa.Const); !isK || k.Int64() != 0 {
-								creators = append(creators, in)
+								// append(spine, make(…)...)[:len(spine)] only grows the capacity: the new slots lie beyond the length
+								onlyCap := x.Referrers() != nil && len(*x.Referrers()) > 0
+								if onlyCap {
+									for _, ref := range *x.Referrers() {
+										sl, isSl := ref.(*ssa.Slice)
+										if !isSl || sl.X != ssa.Value(x) || sl.High == nil || sl.Low != nil {
+											onlyCap = false
+											break
+										}
+										hc, isCall := sl.High.(*ssa.Call)
+										if !isCall {
+											onlyCap = false
+											break
+										}
+										bl, isB := hc.Call.Value.(*ssa.Builtin)
+										if !isB || bl.Name() != "len" || len(hc.Call.Args) != 1 || !isRecvSpine(hc.Call.Args[0]) {
+											onlyCap = false
+											break
+										}
+									}
+								}
+								if !onlyCap {
+									creators = append(creators, in)
+								}
 							}
 						}
 					}
